@@ -42,6 +42,7 @@ VDec(h)     == [t |-> "dec", h |-> h]
 VStr(s)     == [t |-> "str", v |-> s]
 VRaw(b)     == [t |-> "raw", b |-> b]
 VCpx(ha, hb) == [t |-> "cpx", a |-> VDec(ha), b |-> VDec(hb)]
+VObj(id)    == [t |-> "obj", id |-> id]          \* reference to a module object (shared by reference, as documented)
 
 IsNull(v)   == v.t = "null"
 
@@ -53,6 +54,7 @@ TypeOf(v) ==
     [] v.t = "str"  -> TStr
     [] v.t = "raw"  -> TRaw
     [] v.t = "cpx"  -> T("cpx")
+    [] v.t = "obj"  -> T("obj")
     [] v.t = "tup"  -> v.ty
     [] v.t = "tab"  -> v.ty
     [] v.t = "bigint" -> TInt
@@ -83,6 +85,13 @@ PrintText(v) ==
     [] v.t = "str"  -> v.v
     [] OTHER        -> "?"
 
+\* number of references to object id held inside a value (variables, table elements, tuple items)
+RECURSIVE RefsIn(_, _)
+RefsIn(v, id) ==
+  CASE v.t = "obj" -> IF v.id = id THEN 1 ELSE 0
+    [] v.t \in {"tab", "tup"} -> LET F[j \in 0..Len(v.v)] == IF j = 0 THEN 0 ELSE F[j - 1] + RefsIn(v.v[j], id) IN F[Len(v.v)]
+    [] OTHER -> 0
+
 (* ------------------------------- errors ------------------------------- *)
 NoErr           == [kind |-> "", name |-> ""]
 Err(k, n)       == [kind |-> k, name |-> n]
@@ -108,6 +117,9 @@ NoFrame == [x \in {} |-> VNil]
 \* inloop: number of loops of the current frame that are running (break/continue outside a loop do nothing)
 State0  == [vars |-> NoFrame, funcs |-> <<>>, out |-> "", depth |-> 0, inloop |-> 0,
             sig |-> "", err |-> NoErr, rv |-> VNil, hasrv |-> FALSE, cerr |-> NoErr,
+            nobj |-> 0,         \* module objects created so far (identities 1..nobj, process-wide)
+            otags |-> <<>>,     \* tag of each object
+            oev |-> <<>>,       \* create / method events the module must have seen, in order
             locked |-> {},      \* variables being traversed by forall: read-only until the loop is left
             unk |-> FALSE]      \* unk: the trace monitor lost track of this context (after an unpinned step)
 
@@ -334,7 +346,18 @@ EvalMember(e, S) ==
                          ELSE R(StorePath(e.r, S1, nv), nv)
                     ELSE R(S1, nv)
     IN
-    CASE e.m = "count" ->
+    CASE x.t = "obj" ->      \* a method of the verification module: executed on the referenced object
+           LET S2 == [S1 EXCEPT !.oev = Append(@, [e |-> "method", id |-> x.id, name |-> e.m, args |-> vs])] IN
+           CASE e.m = "id" -> R(S2, VInt(x.id))
+             [] e.m = "tag" -> R(S2, VInt(S1.otags[x.id]))
+             [] e.m = "echo" -> R(S2, vs[1])
+             [] e.m = "sum" -> IF IsNull(vs[1]) \/ IsNull(vs[2]) THEN R(S2, VNull(TDec)) ELSE R(S2, VDec(2 * vs[1].v + vs[2].h))
+             [] e.m = "self" -> R(S2, x)
+             [] e.m = "settag" -> R([S2 EXCEPT !.otags[x.id] = IF IsNull(vs[1]) THEN @ ELSE vs[1].v], x)
+             [] e.m = "other" -> IF IsNull(vs[1]) THEN R(S2, VNull(TInt)) ELSE R(S2, VInt(vs[1].id))
+             [] e.m = "fail" -> RE(S2, EOther("method failed"))
+             [] OTHER -> RE(S1, EOther("wide"))
+      [] e.m = "count" ->
            IF IsNull(x) THEN R(S1, VNull(TInt))
            ELSE IF x.t \in {"tab", "tup", "str", "raw"} THEN R(S1, VInt(n)) ELSE RE(S1, EOther("wide"))
       [] x.t \in {"str", "raw"} /\ e.m \in {"at", "put", "insert", "delete"} ->
@@ -458,6 +481,19 @@ Eval(e, S) ==
   CASE e.k = "lit"  -> R(S, e.v)
     [] e.k = "null" -> R(S, VNil)
     [] e.k = "bigc" -> R(S, VInt(BigVal(e)))
+    [] e.k = "octor" -> \* constructor of the verification module: vobj(tag) or the copy constructor vobj(obj)
+         LET ra == EvalArgs(e.as, S, <<>>) IN
+         IF Failed(ra.S) THEN [S |-> ra.S, v |-> VNil]
+         ELSE LET a == ra.vs[1]  S1 == ra.S  id == S1.nobj + 1 IN
+              IF IsNull(a) THEN RE(S1, EOther("ctor"))
+              ELSE IF a.t = "int" THEN
+                   IF a.v = 666 THEN RE(S1, EOther("ctor"))
+                   ELSE R([S1 EXCEPT !.nobj = id, !.otags = Append(@, a.v),
+                                     !.oev = Append(@, [e |-> "create", id |-> id, tag |-> a.v])], VObj(id))
+              ELSE IF a.t = "obj" THEN
+                   R([S1 EXCEPT !.nobj = id, !.otags = Append(@, S1.otags[a.id] + 1000),
+                                !.oev = Append(@, [e |-> "create", id |-> id, tag |-> S1.otags[a.id] + 1000])], VObj(id))
+              ELSE RE(S1, EOther("type"))
     [] e.k = "ii" -> R(S, VCpx(0, 2))             \* the imaginary unit
     [] e.k = "itemraw" -> \* tuple accessor with a rank too wide for TLC: always out of range
          LET r == Eval(e.a, S) IN
@@ -670,6 +706,7 @@ RArgs(es) == Join([i \in DOMAIN es |-> RE_(es[i])], ", ")
 RE_(e) ==
   CASE e.k = "lit"  -> RLit(e.v)
     [] e.k = "null" -> "null"
+    [] e.k = "octor" -> "vobj(" \o RArgs(e.as) \o ")"
     [] e.k = "ii" -> "ii"
     [] e.k = "itemraw" -> RE_(e.a) \o "@" \o e.txt
     [] e.k = "rawint" -> e.txt
@@ -696,7 +733,7 @@ RIfs(cs, first) ==
 RS(s) ==
   CASE s.k = "nop" -> "nop;"
     [] s.k = "let" -> s.n \o " = " \o RE_(s.e) \o ";"
-    [] s.k = "letn" -> s.n \o ":" \o TypeKw(s.ty) \o ";"
+    [] s.k = "letn" -> s.n \o ":" \o (IF s.ty.m = "obj" THEN "vobj" ELSE TypeKw(s.ty)) \o ";"      \* objects: the verification module
     [] s.k = "do"  -> RE_(s.e) \o ";"
     [] s.k = "print" -> "print " \o Join([i \in DOMAIN s.es |-> RE_(s.es[i])], " ") \o ";"
     [] s.k = "put" -> "put " \o Join([i \in DOMAIN s.es |-> RE_(s.es[i])], " ") \o ";"
@@ -727,6 +764,7 @@ NullC           == [k |-> "null"]
 BigC(base, off) == [k |-> "bigc", base |-> base, off |-> off]
 RawInt(txt, v)  == [k |-> "rawint", txt |-> txt, v |-> v]
 II              == [k |-> "ii"]
+OCtor(a)        == [k |-> "octor", as |-> <<a>>]
 ItemRaw(a, txt) == [k |-> "itemraw", a |-> a, txt |-> txt]
 V(n)            == [k |-> "var", n |-> n]
 Bin(op, a, b)   == [k |-> "bin", op |-> op, a |-> a, b |-> b]
